@@ -465,7 +465,7 @@ def pTop (f : Nat) : List Tok → Option (Ty × List Tok)
 
 /-- Fuel used by the top-level entry points: recursion depth never exceeds the token count by
     more than a constant factor. -/
-def fuelFor (ts : List Tok) : Nat := 4 * ts.length + 8
+def fuelFor (ts : List Tok) : Nat := 8 * ts.length + 8
 
 /-- Parse a whole token stream as a type annotation (`let _ : <here> = …`). -/
 def parseAnn (ts : List Tok) : Option Ty :=
